@@ -35,3 +35,13 @@ CHECKS['C11'] = ('model_checking',
   'Same engine as C09 with an attacker-heavy alphabet: in every reached state reached_attack_steps and compromised_by (and is_compromised_by) agree; repeated compromise / vacuous undo change nothing; remove_attacker leaves no node compromised by it; attach_attackers creates exactly one attacker per model attacker whose entry points and reached steps are exactly the existing nodes named.',
   'Trusted: CPython. Bounded by depth / deviations / 3 attackers as reported.',
   'DESIGN.md 3/C11')
+CHECKS['C13'] = ('model_checking',
+  'bounded-exhaustive enumeration of labelled synthetic graphs x all storage orders x attacker placement, exact survivor-set oracle plus C09 invariants',
+  'Every labelled attack graph with <=3 nodes over 12 (type, viable, necessary) kinds and every edge subset, plus structured 4- and 5-node families, is pruned by the real code under every order of graph.nodes, with and without an attacker on a prunable node: the survivors must be exactly the nodes that are not (or/and and (non-viable or unnecessary)), labels unchanged, and all C09 structural invariants must hold afterwards.',
+  'Trusted: CPython. n>=4 only over structured edge shapes in the quick tier.',
+  'DESIGN.md 3/C13')
+CHECKS['C14'] = ('model_checking',
+  'every state reached by the C09 history search is deep-copied; identity audit + every single mutation on either side with before/after comparison of the other side',
+  'For every distinct attack-graph state reached by the bounded history search: the deep copy has equal observation, counters and lookups, shares the model and language graph but no node, attacker or per-node container (children, parents, compromised_by, tags, extras, ttc incl. arguments), all its references stay inside the copy, and every single operation of the C09 alphabet plus five in-place edits applied to one side leaves the other side unchanged.',
+  'Trusted: CPython. Pairs of mutations only in the thorough tier.',
+  'DESIGN.md 3/C14')
